@@ -9,12 +9,19 @@
      frame_set_parent           tasks other than t, its old parent, its new parent and the subtree of t (for own)
      frame_set_children         tasks other than t, the adopted and released tasks, their old parents, their subtrees (own)
      frame_set_links            tasks other than t, its old and its new partners
-     frame_derived              the list facades and operators ARE setter calls (so the three frames apply to them) *)
+     frame_derived              the list facades and operators ARE setter calls (so the three frames apply to them)
+     == bulk assignment on a task list (lst.predecessors = vs, lst.successors = vs, lst.children = vs) ==
+     lst_set_links_seq_effect   an accepted sequence: every element has the value; the mirror lists; the frame
+     mirror_fold_NoDup          the mirror list for a duplicate-free task list: the others, then the list's elements
+     step_lst_set_links_effect, step_lst_set_links_NoDup
+     lst_set_children_seq_effect  the LAST element has the value, every other element of the list has no children,
+                                every other list loses the value's tasks; parents; links and attributes unchanged
+     step_lst_set_children_effect *)
 From Coq Require Import Arith PeanoNat.
 From PJ Require Import Base.Prelude Graph.Model Graph.Invariant Graph.AncLemmas Graph.AncLemmas2
   Graph.DepLemmas Graph.LinksProofs Graph.ParentProofs Graph.ParentOps
   Graph.ChildrenProofsWrite Graph.ChildrenProofs.
-From PJ Require Graph.EffectProofs.
+From PJ Require Graph.EffectProofs Graph.AtomicProofs Graph.StepProofs.
 Local Open Scope nat_scope.
 
 Lemma filter_all {A} (f : A -> bool) l : (forall x, In x l -> f x = true) -> filter f l = l.
@@ -228,3 +235,269 @@ Proof.
   - unfold ln_remove. cbv zeta. apply memn_In in H. rewrite H. reflexivity.
   - unfold ln_remove. cbv zeta. apply memn_false in H. rewrite H. reflexivity.
 Qed.
+
+(* ================= bulk assignment on a task list ================= *)
+(* lst.predecessors = vs / lst.successors = vs / lst.children = vs: one setter call per element of the list, with
+   the same value; if one of them raises nothing changes (all_or_nothing: C15).  What an ACCEPTED call does: *)
+Lemma andthen_ok_inv r k s' : andthen r k = (s', OK) -> snd r = OK /\ k (fst r) = (s', OK).
+Proof.
+  unfold andthen. destruct r as [s1 [[]| |c]]; cbn [fst snd]; intro H; [auto|discriminate H..].
+Qed.
+
+Lemma seq_calls_cons_ok {A} (f : state -> A -> state * outcome) s x r s' :
+  seq_calls f s (x :: r) = (s', OK) -> exists s1, f s x = (s1, OK) /\ seq_calls f s1 r = (s', OK).
+Proof.
+  cbn [seq_calls]. intro H. apply andthen_ok_inv in H. destruct H as [H1 H2].
+  exists (fst (f s x)). split; [|exact H2]. destruct (f s x) as [s1 o]. cbn [fst snd] in *. subst o. reflexivity.
+Qed.
+
+(* the mirror list of x after the elements ts have been assigned one after the other *)
+Definition mirror_step (b : bool) (l : list obj) (t : obj) : list obj := without t l ++ (if b then [t] else []).
+
+Lemma set_links_ok_effect d s t vs s1 :
+  WF s -> pub s t -> pubs s vs -> set_links d s t vs = (s1, OK) ->
+  let h := hp s in
+  let h' := hp s1 in
+  let value := dedup (somes vs) in
+  WF s1 /\ (forall y, pub s1 y <-> pub s y) /\
+  wroots s1 = wroots s /\ length h' = length h /\
+  fwd d (get h' t) = value /\
+  (forall x, x <> t -> fwd d (get h' x) = fwd d (get h x)) /\
+  (forall x, bwd d (get h' x) = mirror_step (memn x value) (bwd d (get h x)) t) /\
+  (forall x, core (get h' x) = core (get h x)).
+Proof.
+  intros W Pt Pv E. cbv zeta.
+  pose proof (set_links_WF d s t vs W Pt Pv) as W1. rewrite E in W1. cbn [fst] in W1.
+  assert (P1 : forall y, pub s1 y <-> pub s y).
+  { intro y. pose proof (set_links_pub d s t vs y) as H. rewrite E in H. exact H. }
+  split; [exact W1|]. split; [exact P1|].
+  destruct (set_links_cases d s t vs) as [[G E']|[_ [_ N]]]; [|rewrite E in N; exfalso; apply N; reflexivity].
+  rewrite E' in E. inversion E; subst s1. clear E.
+  pose proof W as (F & _ & _ & Sy & _).
+  assert (Lv : forall v, In v (dedup (somes vs)) -> v < length (hp s)).
+  { intros v Hv. apply (proj1 (In_dedup _ _)) in Hv. apply (proj1 (In_somes _ _)) in Hv. apply (Pv v Hv). }
+  exact (set_links_effect d s t (dedup (somes vs)) F Sy (proj1 Pt) Lv (NoDup_dedup _)).
+Qed.
+
+Theorem lst_set_links_seq_effect d vs : forall ts s s',
+  WF s -> (forall t, In t ts -> pub s t) -> pubs s vs ->
+  lst_set_links_seq d s ts vs = (s', OK) ->
+  let h := hp s in
+  let h' := hp s' in
+  let value := dedup (somes vs) in
+  WF s' /\ wroots s' = wroots s /\ length h' = length h /\
+  (forall t, In t ts -> fwd d (get h' t) = value) /\
+  (forall x, ~ In x ts -> fwd d (get h' x) = fwd d (get h x)) /\
+  (forall x, bwd d (get h' x) = fold_left (mirror_step (memn x value)) ts (bwd d (get h x))) /\
+  (forall x, core (get h' x) = core (get h x)).
+Proof.
+  unfold lst_set_links_seq. induction ts as [|t r IH]; intros s s' W Pt Pv E; cbv zeta.
+  - cbn [seq_calls] in E. inversion E; subst s'. split; [exact W|]. split; [reflexivity|]. split; [reflexivity|].
+    split; [intros t []|]. split; [reflexivity|]. split; reflexivity.
+  - apply seq_calls_cons_ok in E. destruct E as (s1 & E1 & E2).
+    destruct (set_links_ok_effect d s t vs s1 W (Pt t (or_introl eq_refl)) Pv E1)
+      as (W1 & P1 & Ew & El & Et & Ef & Eb & Ec). cbv zeta in *.
+    assert (Pt1 : forall t', In t' r -> pub s1 t') by (intros t' H; apply P1; apply Pt; right; exact H).
+    assert (Pv1 : pubs s1 vs) by (intros v Hv; apply P1; apply Pv; exact Hv).
+    destruct (IH s1 s' W1 Pt1 Pv1 E2) as (W' & Ew' & El' & Et' & Ef' & Eb' & Ec'). cbv zeta in *.
+    split; [exact W'|]. split; [congruence|]. split; [congruence|]. split; [|split; [|split]].
+    + intros x Hx. destruct (in_dec Nat.eq_dec x r) as [Hr|Hr]; [apply Et'; exact Hr|].
+      destruct Hx as [Hx|Hx]; [subst x|contradiction]. rewrite (Ef' t Hr). exact Et.
+    + intros x Hx. rewrite Ef' by (intro H; apply Hx; right; exact H).
+      apply Ef. intro H. apply Hx. left. symmetry. exact H.
+    + intro x. rewrite Eb', Eb. reflexivity.
+    + intro x. rewrite Ec'. apply Ec.
+Qed.
+
+Lemma others_without r t l : EffectProofs.others r (without t l) = EffectProofs.others (t :: r) l.
+Proof.
+  unfold EffectProofs.others, without. rewrite EffectProofs.filter_filter2. apply filter_ext. intro y.
+  cbn [memn existsb]. rewrite negb_orb, (Nat.eqb_sym y t). reflexivity.
+Qed.
+
+Lemma others_notin ts l : (forall x, In x l -> ~ In x ts) -> EffectProofs.others ts l = l.
+Proof.
+  intro H. unfold EffectProofs.others. apply filter_all. intros x Hx. apply negb_true_iff. apply memn_false. apply H. exact Hx.
+Qed.
+
+(* for a duplicate-free task list: the former partners outside the list in their old order, then - when x is in
+   the value - the elements of the list in the order of the list *)
+Lemma mirror_fold_NoDup b : forall ts l, NoDup ts ->
+  fold_left (mirror_step b) ts l = EffectProofs.others ts l ++ (if b then ts else []).
+Proof.
+  induction ts as [|t r IH]; intros l N.
+  - cbn [fold_left]. unfold EffectProofs.others. rewrite filter_all by reflexivity. destruct b; symmetry; apply app_nil_r.
+  - inversion N as [|? ? Nt Nr]; subst. cbn [fold_left]. rewrite (IH _ Nr). unfold mirror_step.
+    unfold EffectProofs.others at 1. rewrite filter_app. fold (EffectProofs.others r (without t l)).
+    rewrite others_without. destruct b.
+    + fold (EffectProofs.others r [t]). rewrite (others_notin r [t]) by (intros x [<-|[]]; exact Nt).
+      rewrite <- app_assoc. reflexivity.
+    + cbn [filter]. rewrite !app_nil_r. reflexivity.
+Qed.
+
+Lemma pub_args_lst s ts vs :
+  forallb (pubobj s) ts && publist s vs = true -> (forall t, In t ts -> pub s t) /\ pubs s vs.
+Proof.
+  intro A. apply andb_true_iff in A. destruct A as [A1 A2].
+  split; [apply StepProofs.forallb_pubobj; exact A1|apply StepProofs.publist_pubs; exact A2].
+Qed.
+
+(* C16 for lst.predecessors = vs (d = true) / lst.successors = vs: after an accepted call EVERY element of the
+   list has exactly the given tasks (None dropped, first occurrences, in the given order); no other task's list
+   of that kind changes; the mirror lists; hierarchy, owners, attributes unchanged *)
+Theorem step_lst_set_links_effect d s ts vs s' :
+  WF s -> pub_args s (LstSetLinks d ts vs) = true -> step s (LstSetLinks d ts vs) = (s', OK) ->
+  let h := hp s in
+  let h' := hp s' in
+  let value := dedup (somes vs) in
+  WF s' /\ wroots s' = wroots s /\ length h' = length h /\
+  (forall t, In t ts -> fwd d (get h' t) = value) /\
+  (forall x, ~ In x ts -> fwd d (get h' x) = fwd d (get h x)) /\
+  (forall x, bwd d (get h' x) = fold_left (mirror_step (memn x value)) ts (bwd d (get h x))) /\
+  (forall x, core (get h' x) = core (get h x)).
+Proof.
+  intros W A E. apply EffectProofs.step_ok_inv in E. destruct E as [_ E]. cbn [step'] in E.
+  unfold lst_set_links in E. apply AtomicProofs.all_or_nothing_ok in E.
+  cbn [pub_args] in A. destruct (pub_args_lst s ts vs A) as [Pt Pv].
+  exact (lst_set_links_seq_effect d vs ts s s' W Pt Pv E).
+Qed.
+
+Theorem step_lst_set_links_NoDup d s ts vs s' :
+  WF s -> pub_args s (LstSetLinks d ts vs) = true -> step s (LstSetLinks d ts vs) = (s', OK) -> NoDup ts ->
+  forall x, bwd d (get (hp s') x) =
+            EffectProofs.others ts (bwd d (get (hp s) x)) ++ (if memn x (dedup (somes vs)) then ts else []).
+Proof.
+  intros W A E N x. destruct (step_lst_set_links_effect d s ts vs s' W A E) as (_ & _ & _ & _ & _ & Eb & _).
+  cbv zeta in Eb. rewrite Eb. apply mirror_fold_NoDup. exact N.
+Qed.
+
+(* ---- lst.children = vs ---- *)
+Lemma set_children_ok_effect s t vs s1 :
+  WF s -> t < length (hp s) -> pubs s vs -> set_children s t vs = (s1, OK) ->
+  let h := hp s in
+  let h' := hp s1 in
+  let value := dedup (somes vs) in
+  WF s1 /\ (forall y, pub s1 y <-> pub s y) /\
+  wroots s1 = wroots s /\ length h' = length h /\
+  (forall x, par (get h' x) = if memn x value then Some t
+                              else if memn x (kids (get h t)) then None else par (get h x)) /\
+  (forall q, kids (get h' q) = if Nat.eqb q t then value
+                               else filter (fun c => negb (memn c value)) (kids (get h q))) /\
+  (forall x, rest (get h' x) = rest (get h x)).
+Proof.
+  intros W Lt Pv E. cbv zeta.
+  pose proof (set_children_WF s t vs W Lt Pv) as W1. rewrite E in W1. cbn [fst] in W1.
+  assert (P1 : forall y, pub s1 y <-> pub s y).
+  { intro y. pose proof (set_children_pub s t vs y) as H. rewrite E in H. exact H. }
+  split; [exact W1|]. split; [exact P1|].
+  pose proof W as (F & Pc & _).
+  assert (Lv : forall v, In (Some v) vs -> v < length (hp s)) by (intros v Hv; apply (Pv v Hv)).
+  destruct (set_children_effect s t vs s1 F Pc Lt Lv E) as (Ew & El & Ep & Ek & _ & Er). cbv zeta in *.
+  split; [exact Ew|]. split; [exact El|]. split; [|split; [exact Ek|exact Er]].
+  intro x. rewrite Ep. unfold obj in *. destruct (memn x (dedup (somes vs))) eqn:Mv; [reflexivity|].
+  unfold released. replace (memn x (filter (fun v => negb (memn v (dedup (somes vs)))) (kids (get (hp s) t))))
+    with (memn x (kids (get (hp s) t))); [reflexivity|].
+  destruct (memn x (kids (get (hp s) t))) eqn:Mk; symmetry.
+  - apply memn_In. apply filter_In. split; [apply memn_In; exact Mk|]. unfold obj in *. rewrite Mv. reflexivity.
+  - apply memn_false. intro H. apply filter_In in H. destruct H as [H _]. apply memn_In in H. congruence.
+Qed.
+
+Lemma filter_notin_self (v : list obj) : filter (fun c => negb (memn c v)) v = [].
+Proof.
+  assert (G : forall l, (forall x, In x l -> In x v) -> filter (fun c => negb (memn c v)) l = []).
+  { induction l as [|a l IH]; intro H; [reflexivity|]. cbn [filter].
+    rewrite (proj2 (memn_In a v)) by (apply H; left; reflexivity). cbn [negb]. apply IH. intros x Hx. apply H. right. exact Hx. }
+  apply G. auto.
+Qed.
+
+Lemma filter_idem {A} (f : A -> bool) l : filter f (filter f l) = filter f l.
+Proof. apply filter_all. intros x Hx. apply filter_In in Hx. apply Hx. Qed.
+
+Theorem lst_set_children_seq_effect vs : forall ts s s',
+  WF s -> (forall t, In t ts -> t < length (hp s)) -> pubs s vs -> ts <> [] ->
+  lst_set_children_seq s ts vs = (s', OK) ->
+  let h := hp s in
+  let h' := hp s' in
+  let value := dedup (somes vs) in
+  let tn := last ts 0 in
+  WF s' /\ wroots s' = wroots s /\ length h' = length h /\
+  (forall q, kids (get h' q) = if Nat.eqb q tn then value
+                               else if memn q ts then []
+                               else filter (fun c => negb (memn c value)) (kids (get h q))) /\
+  (forall x, par (get h' x) = if memn x value then Some tn
+                              else if existsb (fun t => memn x (kids (get h t))) ts then None
+                              else par (get h x)) /\
+  (forall x, rest (get h' x) = rest (get h x)).
+Proof.
+  unfold lst_set_children_seq. induction ts as [|t r IH]; intros s s' W Lt Pv Ne E; [contradiction Ne; reflexivity|].
+  cbv zeta. apply seq_calls_cons_ok in E. destruct E as (s1 & E1 & E2).
+  destruct (set_children_ok_effect s t vs s1 W (Lt t (or_introl eq_refl)) Pv E1)
+    as (W1 & P1 & Ew & El & Ep & Ek & Er). cbv zeta in *.
+  destruct r as [|t2 r'].
+  - cbn [seq_calls] in E2. inversion E2; subst s'. cbn [last].
+    split; [exact W1|]. split; [exact Ew|]. split; [exact El|]. split; [|split; [|exact Er]].
+    + intro q. rewrite Ek. cbn [memn existsb]. destruct (Nat.eqb q t); reflexivity.
+    + intro x. rewrite Ep. cbn [existsb]. rewrite orb_false_r. reflexivity.
+  - assert (Lt1 : forall t', In t' (t2 :: r') -> t' < length (hp s1)).
+    { intros t' H. rewrite El. apply Lt. right. exact H. }
+    assert (Pv1 : pubs s1 vs) by (intros v Hv; apply P1; apply Pv; exact Hv).
+    assert (Ne1 : t2 :: r' <> []) by discriminate.
+    destruct (IH s1 s' W1 Lt1 Pv1 Ne1 E2) as (W' & Ew' & El' & Ek' & Ep' & Er'). cbv zeta in *.
+    change (last (t :: t2 :: r') 0) with (last (t2 :: r') 0).
+    set (tn := last (t2 :: r') 0) in *. set (value := dedup (somes vs)) in *.
+    split; [exact W'|]. split; [congruence|]. split; [congruence|]. split; [|split].
+    + intro q. rewrite Ek'. destruct (Nat.eqb q tn); [reflexivity|].
+      change (memn q (t :: t2 :: r')) with (Nat.eqb q t || memn q (t2 :: r')).
+      destruct (memn q (t2 :: r')); [rewrite orb_true_r; reflexivity|]. rewrite orb_false_r.
+      rewrite Ek. destruct (Nat.eqb q t); [apply filter_notin_self|apply filter_idem].
+    + intro x. rewrite Ep'. destruct (memn x value) eqn:Mv; [reflexivity|].
+      change (existsb (fun t0 => memn x (kids (get (hp s) t0))) (t :: t2 :: r'))
+        with (memn x (kids (get (hp s) t)) || existsb (fun t0 => memn x (kids (get (hp s) t0))) (t2 :: r')).
+      rewrite Ep. unfold obj in *. rewrite Mv.
+      assert (X : forall t', memn x (kids (get (hp s1) t')) =
+                             if Nat.eqb t' t then false else memn x (kids (get (hp s) t'))).
+      { intro t'. rewrite Ek. destruct (Nat.eqb t' t).
+        - apply memn_false. intro H. apply memn_In in H. unfold obj in *. congruence.
+        - destruct (memn x (kids (get (hp s) t'))) eqn:Mk.
+          + apply memn_In. apply filter_In. split; [apply memn_In; exact Mk|]. unfold obj in *. rewrite Mv. reflexivity.
+          + apply memn_false. intro H. apply filter_In in H. destruct H as [H _]. apply memn_In in H. congruence. }
+      destruct (memn x (kids (get (hp s) t))) eqn:Mt.
+      * cbn [orb]. destruct (existsb _ (t2 :: r')); reflexivity.
+      * cbn [orb].
+        rewrite (existsb_ext_in (fun t0 => memn x (kids (get (hp s1) t0))) (fun t0 => memn x (kids (get (hp s) t0)))); [reflexivity|].
+        intros t' _. rewrite X. destruct (Nat.eqb t' t) eqn:Et; [|reflexivity].
+        apply Nat.eqb_eq in Et. subst t'. symmetry. exact Mt.
+    + intro x. rewrite Er'. apply Er.
+Qed.
+
+(* C16 for lst.children = vs: after an accepted call the LAST element of the list has exactly the given tasks as its
+   children (None dropped, first occurrences, given order); every other element of the list has no children; every
+   other task keeps its children except the given tasks; the given tasks have the last element as parent, the
+   former children of the list's elements that are not given have none, all other parents are unchanged; links and
+   attributes are unchanged; the result is well-formed (so the owners are those of the new hierarchy) *)
+Theorem step_lst_set_children_effect s ts vs s' :
+  WF s -> pub_args s (LstSetChildren ts vs) = true -> step s (LstSetChildren ts vs) = (s', OK) -> ts <> [] ->
+  let h := hp s in
+  let h' := hp s' in
+  let value := dedup (somes vs) in
+  let tn := last ts 0 in
+  WF s' /\ wroots s' = wroots s /\ length h' = length h /\
+  (forall q, kids (get h' q) = if Nat.eqb q tn then value
+                               else if memn q ts then []
+                               else filter (fun c => negb (memn c value)) (kids (get h q))) /\
+  (forall x, par (get h' x) = if memn x value then Some tn
+                              else if existsb (fun t => memn x (kids (get h t))) ts then None
+                              else par (get h x)) /\
+  (forall x, rest (get h' x) = rest (get h x)).
+Proof.
+  intros W A E Ne. apply EffectProofs.step_ok_inv in E. destruct E as [_ E]. cbn [step'] in E.
+  unfold lst_set_children in E. apply AtomicProofs.all_or_nothing_ok in E.
+  cbn [pub_args] in A. destruct (pub_args_lst s ts vs A) as [Pt Pv].
+  apply (lst_set_children_seq_effect vs ts s s' W); try assumption.
+  intros t Ht. apply (Pt t Ht).
+Qed.
+
+(* an empty task list: nothing happens *)
+Theorem step_lst_set_nil s vs d : oklist s vs = true ->
+  step s (LstSetChildren [] vs) = (s, OK) /\ step s (LstSetLinks d [] vs) = (s, OK).
+Proof. intro H. unfold step. cbn [args_ok forallb andb]. rewrite H. split; reflexivity. Qed.
